@@ -350,7 +350,13 @@ func (t *TxWatcher) AddWaitForCsvTx(swapId string, txId string, vout uint32, hei
 							log.Infof("[TxWatcher] Wait for csv limit on swap %s: confirmationCallback is nil", swapId)
 							return
 						}
-						_ = t.csvPassedCallback(swapId)
+						if err := t.csvPassedCallback(swapId); err != nil {
+							// The swap could not take the event (e.g. its
+							// store is failing right now). The refund must
+							// not be lost: try again with the next block.
+							log.Infof("[TxWatcher] Wait for csv limit on swap %s: csvPassedCallback failed: %v, retrying with the next block", swapId, err)
+							continue
+						}
 						return
 					}
 				}
